@@ -42,7 +42,21 @@ def k4(tier):
              models=['m_transit.c', 'm_throw.c', 'm_env.c'], libmodels=['m_string.c', 'm_stl.c'], unwind=24, unwindset=['strlen.0:40'], tier=tier, timeout=280,
              bounds='2 thread contexts, each with 0..1 record in its bounded queue (written by the real log_statement, queue position at the start or just before the wrap) and 0..1 buffered event (all symbolic)',
              what='K4: the real _check_frontend_queues_and_cached_transit_events_empty answers true iff no queue of ANY context holds a record and no ring holds an event - the condition for freeing removed loggers and dead thread contexts')
-QUERIES += [k4('quick')]
+def k1b(tier):
+    return Q('K1b_populate_pass', 'C03_k3.cpp', 'h_populate_pass', defines=['NCTX=2', 'TEBCAP=2'], cuts=TE_CUTS, forbid=K3F + [r'_read_and_decode_frontend_queueINS1_18UnboundedSPSCQueueE'],
+             hooks=[r'^_ZN5quill2v96detail13BackendWorker32_dispatch_transit_event_to_sinksE=vh_dispatch', r'^_ZN5quill2v96detail13BackendWorker36_update_active_thread_contexts_cacheEv=vh_update_cache',
+                    r'^_ZN5quill2v96detail13BackendWorker31_read_and_decode_frontend_queueINS1_20BoundedSPSCQueueImplImEEEE.*=vh_read_decode'],
+             models=['m_transit.c', 'm_throw.c', 'm_env.c'], libmodels=['m_string.c', 'm_stl.c'], unwind=24, unwindset=['strlen.0:40'], tier=tier, timeout=280,
+             bounds='2 thread contexts, grace period off or 1..1023 us (symbolic), clock any 40-bit nanosecond value, advancing while queues are read; the read loop is a hook returning symbolic counts',
+             what='K1b: real _populate_transit_events_from_frontend_queues computes ONE cut-off (clock at the start of the pass minus the grace period, or "none") and passes it unchanged to the read loop of every context, each visited once in cache order; returns the sum of the reported ring sizes')
+def k6(tier):
+    return Q('K6_cleanup_contexts', 'C03_k3.cpp', 'h_cleanup_contexts', defines=['NCTX=2', 'TEBCAP=2'], cuts=TE_CUTS, forbid=[x for x in K3F if '_cleanup_invalidated_thread_contexts' not in x],
+             hooks=[r'^_ZN5quill2v96detail13BackendWorker32_dispatch_transit_event_to_sinksE=vh_dispatch', r'^_ZNK5quill2v96detail20ThreadContextManager26has_invalid_thread_contextEv=vh_has_invalid',
+                    r'^_ZN5quill2v96detail20ThreadContextManager40remove_shared_invalidated_thread_contextEPKNS1_13ThreadContextE=vh_remove_ctx'],
+             models=['m_transit.c', 'm_throw.c', 'm_env.c'], libmodels=['m_string.c', 'm_stl.c'], unwind=24, unwindset=['strlen.0:40'], byteloops=True, cdefs=['VLL_PTRCELLS'], tier=tier, timeout=280,
+             bounds='2 cached thread contexts, each exited or alive, with 0..1 queued record (real log_statement) and 0..1 buffered event (all symbolic)',
+             what='K6: real _cleanup_invalidated_thread_contexts hands a context back for reclamation iff its thread exited AND its queue is empty AND its ring is empty (never with buffered statements), all such contexts in one call, each once; the others stay cached in order')
+QUERIES += [k4('quick'), k1b('quick'), k6('quick')]
 QUERIES += [k3(2, 0, 'quick'), k3(1, 1, 'quick'), k3(1, 2, 'quick', wide=0), k3(2, 2, 'thorough', timeout=1700, wide=0), k3(1, 2, 'thorough', timeout=1700)]
 # NOTE: harness/C03_backend.cpp + harness/bk.h (kernels K1/K3 on the real BackendWorker) are kept in the tree but NOT registered:
 # at 1-2 contexts x 1-2 records CBMC needed > 60 GB / did not finish in 10 min (see DESIGN.md section 7).
